@@ -663,6 +663,20 @@ func (f *fsm) openSent() (fsmState, error) {
 					f.keepAliveInterval = f.holdTime / 3
 					f.keepAliveTimer = time.NewTimer(f.keepAliveInterval)
 					f.drainAndResetHoldTimer()
+				} else {
+					// https://tools.ietf.org/html/rfc4271#section-4.2
+					// A negotiated hold time of zero means no KEEPALIVE
+					// messages are sent and the session never expires: keep
+					// both timers stopped.
+					f.keepAliveInterval = 0
+					f.keepAliveTimer = time.NewTimer(longHoldTime)
+					f.keepAliveTimer.Stop()
+					if !f.holdTimer.Stop() {
+						select {
+						case <-f.holdTimer.C:
+						default:
+						}
+					}
 				}
 
 				return openConfirmState, nil
@@ -743,7 +757,9 @@ func (f *fsm) openConfirm() (fsmState, error) {
 							- restarts the HoldTimer and
 							- changes its state to Established.
 					*/
-					f.drainAndResetHoldTimer()
+					if f.holdTime != 0 {
+						f.drainAndResetHoldTimer()
+					}
 					return establishedState, nil
 				case *Notification:
 					return idleState, newNotificationError(m, false)
